@@ -179,7 +179,7 @@ def run(ctx):
         ctx.exhaustive = False
         ctx.stat("promotion_table_entries", len(qs))
     # (2) programs per dtype on the real code, model value diff as usual
-    n = 480 if ctx.tier == "quick" else 8000
+    n = 2400 if ctx.tier == "quick" else 16000
     stream.run_stream(ctx, "dtype", "harness.props.c20", "gen_cases", n, per_chunk=30,
                       canon_kw=dict(drop_zero=True))
 
